@@ -23,7 +23,7 @@ res = {}
 try:
     patch = os.path.abspath(os.path.join(src, "patch.diff"))
     demo = open(os.path.join(src, "demo_test.go")).read()
-    m = re.search(r"package\s+(\w+)", demo)
+    m = re.search(r"^package\s+(\w+)", demo, re.M)
     pkgdir = None
     for cand in re.findall(r"([\w/]+)/?\s", demo[:600]):
         pass
